@@ -23,31 +23,37 @@ from props import syntaxref
 
 MANIFEST = dict(
     category="proof",
-    text="Machine-checked proof (Coq) over a Gallina model of numbat's recursive-descent expression parser "
-         "(parser.rs postfix_apply … primary, one definition per Rust function, explicit error / out-of-fuel "
-         "results): for EVERY derivation tree of the documented expression grammar whose operands sit at the "
-         "levels the documented precedence table requires (unbounded depth; |>, if/then/else, conversions, "
-         "||, &&, !, comparisons, + -, * /, per, unary minus/plus, implicit multiplication, ^ and ^-, factorials, "
-         "unicode exponents, calls with arguments, field access, parentheses, all literal kinds), the parser "
-         "applied to the printed tokens returns exactly the tree the documentation prescribes (C10_roundtrip); "
-         "every abstract operator tree rendered with the minimal parentheses of the table is read back as itself "
-         "(C10_precedence); redundant parentheses never change the result (C10_parens). The lexer "
-         "(tokenizer.rs) and the rejection of inputs outside the grammar are NOT proved: they rest on the "
-         "model-vs-implementation correspondence check (token kinds, lexemes, trees, first error kind on "
-         "generated valid, mutated and random inputs) — C10_full (soundness: everything accepted is in the "
-         "grammar) is stated but not proved.",
+    text="Machine-checked proof (Coq) over a Gallina model of numbat's recursive-descent parser (parser.rs parse / "
+         "statement for expressions, `let name = e` and procedure calls; expression … primary, parse_binop, arguments, "
+         "list and struct literals; one definition per Rust function, explicit error / out-of-fuel results). "
+         "C10_roundtrip / C10_roundtrip_stmt: for EVERY derivation tree of the documented grammar whose operands sit at "
+         "the levels the documented precedence table requires (unbounded depth; |>, if/then/else, conversions, ||, &&, !, "
+         "comparisons, + -, * /, per, unary minus/plus, implicit multiplication, ^ and ^-, factorials, unicode exponents, "
+         "calls, field access, list and struct literals, parentheses, all literal kinds) the parser applied to the printed "
+         "tokens returns exactly the documented tree. C10_precedence: every abstract operator tree rendered with the minimal "
+         "parentheses of the table is read back as itself. C10_parens: redundant parentheses / alternative spellings never "
+         "change the result. C10_sound_core + C10_characterised: on token lists without newline tokens, trailing commas and "
+         "`;`, whatever the parser accepts IS the print of a well-formed tree and denotes it (acceptance characterised "
+         "exactly: nothing outside the grammar is accepted or reinterpreted). C10_fuel: the parser never runs out of fuel on "
+         "ANY token list. C10_optable / C10_lex_tables: the precedence chain, operator token sets, keyword map and subscript "
+         "range re-extracted from the Rust source on every run equal the model's; documented spellings and number forms lex as "
+         "documented (finite tables). NOT proved: the lexer beyond the finite tables, soundness for inputs with newline "
+         "tokens / trailing commas / several statements (C10_full), string interpolation and the other statement forms "
+         "(fn, unit, dimension, struct, decorators, type annotations: explicit Unsupported in the model) — these rest on the "
+         "model-vs-implementation correspondence (token kinds, lexemes, trees, first error kind) and the reference recogniser.",
     design_ref="DESIGN.md §6 C10; design/syntax.md",
     note="Trusted: Coq kernel + vm_compute; the hand port of parser.rs/tokenizer.rs in coq/theories/Syntax/{Parser,Lexer}.v "
          "(validated on every run by the correspondence check and by the regenerated operator table Gen/OpTable.v, "
          "not proved against Rust); the hook numbat::verif::syntax; Rust's str::parse::<f64> for literal values "
          "(checked against Python's correctly rounded float on the generated literals); Unicode XID tables "
-         "(model instance covers a listed character set). List and struct literals, string interpolation and "
-         "statement-level syntax are in the parser model / correspondence but not in the surface grammar of the theorems.",
-    technique="Coq proof by structural induction over grammar derivation trees (follow-set invariants per precedence level) "
-              "+ regenerated operator table lemma + model/implementation correspondence by vm_compute",
+         "(model instance covers a listed character set).",
+    technique="Coq proofs by induction over grammar derivation trees (follow-set invariants per precedence level), inversion of "
+              "the parser (soundness), fuel/consumption invariants + regenerated operator table lemma + model/implementation "
+              "correspondence by vm_compute + independent reference recogniser",
 )
 
-THEOREMS = ["C10_roundtrip", "C10_precedence", "C10_parens", "C10_fuel", "C10_sound_core", "C10_characterised",
+THEOREMS = ["C10_roundtrip", "C10_roundtrip_stmt", "C10_precedence", "C10_parens", "C10_fuel", "C10_sound_core",
+            "C10_characterised",
             "C10_optable", "C10_lex_tables"]
 ALLOWED_AXIOMS = []
 
@@ -165,6 +171,30 @@ def make_cases(chk, quick):
         if rng.random() < (0.35 if quick else 0.5):
             mt = L.gen_mutation(rng, tk)
             cases.append(dict(src=L.render(mt, rng, tight=0.0), kind="mutated", expect=None))
+    # statements of the model: let name = e, procedure calls
+    for n in range(300 if quick else 3000):
+        depth = rng.choice([1, 2, 3, 4])
+        if rng.random() < 0.5:
+            t = L.gen_tree(rng, depth)
+            name = rng.choice(L.IDENTS)
+            tk = [("Let", None), ("Identifier", name), ("Equal", None)] + L.toks(t)
+            expect = "OK (let %s %s)" % (L.esc(name), L.sexpr(t))
+        else:
+            kind, word = rng.choice([("ProcedurePrint", "print"), ("ProcedureAssert", "assert"),
+                                     ("ProcedureAssertEq", "assert_eq"), ("ProcedureType", "type")])
+            args = [L.gen_tree(rng, depth - 1) for _ in range(rng.choice([0, 1, 1, 2, 3]))]
+            tk = [(kind, None), ("LeftParen", None)]
+            for i, a in enumerate(args):
+                if i:
+                    tk.append(("Comma", None))
+                tk += L.toks(a)
+            tk.append(("RightParen", None))
+            expect = "OK (%s%s)" % (word, "".join(" " + L.sexpr(a) for a in args))
+        if len(tk) > 120:
+            continue
+        cases.append(dict(src=L.render(tk, rng, tight=rng.choice([0.0, 0.3])), kind="statement", expect=expect, tokens=tk))
+        if rng.random() < 0.4:
+            cases.append(dict(src=L.render(L.gen_mutation(rng, tk), rng, tight=0.0), kind="mutated", expect=None))
     for n in range(700 if quick else 6000):
         cases.append(dict(src=L.gen_soup(rng), kind="soup", expect=None))
     for n in range(500 if quick else 4000):
